@@ -62,7 +62,7 @@ def build(run):
     unit.add(pv_new)
     unit.raw("}\n")
     ssrc = Source(run.repo, 'crates/erg_common/serialize.rs')
-    for f in ('get_magic_num_bytes', 'get_magic_num_from_bytes', 'get_ver_from_magic_num'):
+    for f in ('get_magic_num_bytes', 'get_magic_num_from_bytes', 'try_get_ver_from_magic_num', 'get_ver_from_magic_num'):
         unit.add(Snippet(ssrc.fn(f), f))
     # jump target arithmetic (codeobj.rs)
     csrc = Source(run.repo, 'crates/erg_compiler/ty/codeobj.rs')
